@@ -321,7 +321,7 @@ transport failure, whatever its kind — ends the connection task in that very s
 `finished` (never `closing`), and the step writes nothing. -/
 theorem propagated_error_finishes (fuel : Nat) (c : Conn) (r : AReq) (h : HState) (r' : AReq) (h' : HState)
     (e : Env) (x : IoErr) (hp : c.phase = .handler r h)
-    (hh : handlerPoll (handlerFuel c.env r) r h c.env = (r', h', e, .done (.error x)))
+    (hh : handlerPoll ((handlerFuel c.env r + scriptOf c)) r h c.env = (r', h', e, .done (.error x)))
     (hx : x ≠ .abortRequest) :
     pollConn (fuel + 1) c = ({ c with phase := .finished, env := e.ev s!"HE(err:{showIo x})" }, .finished) ∧
     (e.ev s!"HE(err:{showIo x})").tr.wlog = e.tr.wlog := by
@@ -330,7 +330,7 @@ theorem propagated_error_finishes (fuel : Nat) (c : Conn) (r : AReq) (h : HState
   refine ⟨?_, by simp [Env.ev, Transport.ev]⟩
   rw [pollConn_succ]
   simp only [stepConn]
-  simp only [handlerFuel] at hh
+  simp only [handlerFuel, scriptOf] at hh
   rw [hh]
   simp [hx]
   rfl
@@ -338,7 +338,7 @@ theorem propagated_error_finishes (fuel : Nat) (c : Conn) (r : AReq) (h : HState
 /-- … and a failed transport write is such an error. -/
 theorem propagated_write_failure_finishes (fuel : Nat) (c : Conn) (r : AReq) (h : HState) (r' : AReq)
     (h' : HState) (e : Env) (x : IoErr) (hp : c.phase = .handler r h)
-    (hh : handlerPoll (handlerFuel c.env r) r h c.env = (r', h', e, .done (.error x)))
+    (hh : handlerPoll ((handlerFuel c.env r + scriptOf c)) r h c.env = (r', h', e, .done (.error x)))
     (hk : x = .transportWrite ∨ x = .connectionAborted ∨ x = .writeZero) :
     pollConn (fuel + 1) c = ({ c with phase := .finished, env := e.ev s!"HE(err:{showIo x})" }, .finished) ∧
     (e.ev s!"HE(err:{showIo x})").tr.wlog = e.tr.wlog :=
@@ -399,13 +399,15 @@ example : ∃ c', pollConn 5
 
 /-! ## The unrestricted handler-fuel claim is false (`_full` / `_partial`) -/
 
-/-- The unrestricted claim for the handler interpreter: with the fuel `pollConn` passes, the fuel guard
-is never hit, whatever the script. -/
+/-- The unrestricted claim for the handler interpreter with the SCRIPT-INDEPENDENT fuel `handlerFuel e r` (which
+is what `pollConn` passed before the model's handler fuel got the term `scriptCost h`): the fuel guard is never hit,
+whatever the script.  For the fuel `pollConn` passes now, `handlerFuel e r + scriptCost h`, the claim is a THEOREM:
+`C07SF.handlerPoll_terminates_actual_holds` (`Props/C07ScriptFuel.lean`). -/
 def handlerPoll_terminates_full : Prop :=
   ∀ (r : AReq) (h : HState) (e : Env) (r' : AReq) (h' : HState) (e' : Env) (s : String),
     handlerPoll (handlerFuel e r) r h e = (r', h', e', .panic s) → s ∉ fuelMsgs
 
-/-- It is false: the fuel is `1000 + 4·(pending input) + 4·(parser buffer size)`, a script of one more
+/-- It is false for that fuel: `1000 + 4·(pending input) + 4·(parser buffer size)`, a script of one more
 trivial op than that on an idle connection exhausts it.  (A limit of the harness scripts, not of the Rust: the `_partial` form
 `handlerPoll_terminates` covers every script whose cost is below the fuel.) -/
 theorem handlerPoll_terminates_full_false : ¬ handlerPoll_terminates_full := by
